@@ -163,6 +163,77 @@ def search(binary, ty, fns, seed=0, nsamples=60):
     return None
 
 
+# ---------------------------------------------------------------- Display (C18)
+DISPLAY_PATTERN = {
+    "Dual": "{} + {}\u03b5", "Dual2": "{} + {}\u03b51 + {}\u03b51\u00b2", "Dual3": "{} + {}v1 + {}v2 + {}v3",
+    "HyperDual": "{} + {}\u03b51 + {}\u03b52 + {}\u03b51\u03b52",
+    "HyperHyperDual": "{} + {}\u03b51 + {}\u03b52 + {}\u03b53 + {}\u03b51\u03b52 + {}\u03b51\u03b53 + {}\u03b52\u03b53 + {}\u03b51\u03b52\u03b53",
+}
+DISPLAY_SYMBOLS = {"DualVec": ["\u03b5"], "Dual2Vec": ["\u03b51", "\u03b51\u00b2"], "HyperDualVec": ["\u03b51", "\u03b52", "\u03b51\u03b52"]}
+
+
+def fnum(v):
+    """Rust's `{}` of an f64 for the dyadic candidate values used here"""
+    return str(int(v)) if float(v) == int(v) else repr(float(v))
+
+
+def expected_display(ty, parts):
+    """documented rendering (property C18); None when it involves nalgebra's matrix rendering"""
+    if ty in DISPLAY_PATTERN:
+        out = DISPLAY_PATTERN[ty]
+        for v in parts:
+            out = out.replace("{}", fnum(v), 1)
+        return out
+    if ty == "Dual__Dual":
+        inner = lambda a, b: "%s + %s\u03b5" % (fnum(a), fnum(b))  # noqa: E731
+        return "%s + %s\u03b5" % (inner(parts[0], parts[1]), inner(parts[2], parts[3]))
+    if ty in BLOCKS:
+        out = fnum(parts[0])
+        for (a, b), sym in zip(BLOCKS[ty], DISPLAY_SYMBOLS[ty]):
+            blk = parts[a:b]
+            if blk[0] is None:
+                continue
+            if len(blk) > 2:
+                return None  # a 2x2 matrix part: nalgebra's rendering is outside the oracle
+            out += " + [" + ", ".join(fnum(v) for v in blk) + "]" + sym
+        return out
+    return None
+
+
+def search_display(binary, seed=0):
+    rng = random.Random(seed)
+    vals = [1.5, -2.0, 0.25, 3.0, -0.75, 4.0, 0.5, -1.25, 8.0]
+    reqs = []
+    for ty in ["Dual", "Dual2", "Dual3", "HyperDual", "HyperHyperDual", "Dual__Dual", "DualVec", "Dual2Vec", "HyperDualVec"]:
+        for _ in range(6):
+            parts = [rng.choice(vals) for _ in range(NPARTS[ty])]
+            if len(set(parts)) < min(len(parts), 4):
+                continue
+            pats = [None]
+            if ty in BLOCKS:
+                pats = list(itertools.product([False, True], repeat=len(BLOCKS[ty])))
+            for pat in pats:
+                p2 = list(parts)
+                if pat is not None:
+                    for k, (a, b) in enumerate(BLOCKS[ty]):
+                        if pat[k] or (b - a) > 2:
+                            for i in range(a, b):
+                                p2[i] = None
+                exp = expected_display(ty, p2)
+                if exp is not None:
+                    reqs.append((ty, p2, exp))
+    inp = "\n".join(fmt_req(ty, "display", [p2], []) for ty, p2, _ in reqs) + "\n"
+    p = subprocess.run([binary], input=inp, capture_output=True, text=True, timeout=120)
+    for (ty, p2, exp), ln in zip(reqs, p.stdout.splitlines()):
+        if ln.startswith("STR "):
+            got = ln[4:].replace("\\n", "\n")
+            if got != exp:
+                return dict(type=ty, function="display", operands=[p2], scalars=[], observed=got, expected=exp, oracle="documented rendering of the type (lib/replay.py)")
+        elif ln.startswith("PANIC"):
+            return dict(type=ty, function="display", operands=[p2], scalars=[], observed="panic", expected=exp, oracle="documented rendering of the type (lib/replay.py)")
+    return None
+
+
 def candidates_for(unit, kind, name):
     """map a failed obligation to (type, [functions]) candidates for the search"""
     fns = []
@@ -209,6 +280,16 @@ def candidates_for(unit, kind, name):
 def find_witness(repo, failed, seed=0):
     """failed: list of (unit, kind, name).  Returns (witness or None, note)"""
     cands = []
+    if any(name.endswith("Display::fmt") or name.endswith("inherent::fmt") for _, _, name in failed):
+        binary, err = build_binary(repo)
+        if binary is None:
+            return None, "replay binary could not be built: " + err
+        try:
+            w = search_display(binary, seed)
+        except Exception as e:
+            return None, "replay search failed: %r" % (e,)
+        if w:
+            return w, ""
     for unit, kind, name in failed:
         for c in candidates_for(unit, kind, name):
             if c not in cands:
